@@ -1719,7 +1719,10 @@ func (w *transformingWriter) Close() error {
 		// nothing may follow the end of the RPC: if an error was already reported,
 		// the buffered message must not be flushed after it
 		if !w.rw.endWritten {
-			if err := w.flushMessage(); err != nil {
+			if want := w.rw.contentLen; w.buffer != nil && want >= 0 && w.buffer.Len() != want {
+				// The body is the message: it must be as long as the handler declared.
+				w.rw.reportError(fmt.Errorf("handler wrote %d bytes but declared a content-length of %d bytes", w.buffer.Len(), want))
+			} else if err := w.flushMessage(); err != nil {
 				w.rw.reportError(err)
 			}
 		}
